@@ -186,11 +186,26 @@ fn run_program(cx: &mut Ctx, text: &str, ws: &[(String, Ty)], rng: &mut Rng, fam
             }
         };
         cmrs.push(built.commit.cmr);
-        let n_maps = 4;
+        // maps 4..6 are partial (satisfy accepts a map that leaves names out; whatever it then
+        // returns must still spend the CMR): without the last name, the first name, a random subset
+        let n_maps = if ws.is_empty() { 4 } else { 7 };
         for k in 0..n_maps {
+            let keep: Vec<bool> = (0..ws.len())
+                .map(|j| match k {
+                    4 => j + 1 != ws.len(),
+                    5 => j != 0,
+                    6 => rng.chance(1, 2),
+                    _ => true,
+                })
+                .collect();
+            if k >= 4 {
+                cx.report.count("partial_maps", 1);
+            }
             let m: WMap = ws
                 .iter()
-                .map(|(n, t)| {
+                .enumerate()
+                .filter(|(j, _)| keep[*j])
+                .map(|(_, (n, t))| {
                     let v = match k {
                         0 => boundary_vals(t)[0].clone(),
                         1 => boundary_vals(t).last().unwrap().clone(),
